@@ -133,6 +133,8 @@ def replace_case(draw, repl_kinds=None, fractions=True, with_hints=True, max_cop
         case["pdress"] = {"slab": draw(st.sampled_from([None, "_s", "_R", "1"])),
                           "rlab": draw(st.sampled_from([None, "_r", "_3", "1"])),
                           "sextra": draw(hperm.integers(0, 3)) == 0, "rextra": draw(st.booleans())}
+    if draw(hperm.integers(0, 3)) == 0:
+        case["pcells"] = [draw(st.sampled_from([None, "small", "big", "tilted"])), draw(st.sampled_from([None, "small", "big", "tilted"]))]
     case["rcharges"] = [round(R_TAG0 + 0.01 * j, 6) for j in range(len(rp["pos"]))]
     case["rgroups"] = [draw(hperm.integers(4, 6)) for _ in range(len(rp["pos"]))]
     return case
@@ -148,6 +150,17 @@ def build_structure(case):
                      atom_type_elements=list(pl["type_elements"]), atom_type_labels=list(pl["type_labels"]),
                      atom_type_masses=list(pl["type_masses"]), charges=list(pl["charges"]), groups=list(pl["groups"]),
                      cell=np.array(case["cell"], float))
+
+
+PATTERN_CELLS = {"small": [[3.1, 0, 0], [0, 4.2, 0], [0, 0, 2.7]], "big": [[25.0, 0, 0], [0, 30.0, 0], [0, 0, 27.0]],
+                 "tilted": [[9.0, 0, 0], [2.5, 8.0, 0], [-1.5, 2.0, 7.0]]}
+
+
+def pattern_cell(case, which):
+    """a pattern may carry a cell of its own (loaded from a LAMMPS or CIF file, cut out of another structure): it has no
+    bearing on where things go in the structure that is searched"""
+    k = (case.get("pcells") or [None, None])[which]
+    return None if k is None else np.array(PATTERN_CELLS[k], float)
 
 
 def _dressed(els, pos, suffix, extra, **kw):
@@ -169,8 +182,8 @@ def build_search(case, motion=None):
         pos = pos @ np.array(motion["R"]).T + np.array(motion["t"])
     d = case.get("pdress")
     if d and (d["slab"] is not None or d["sextra"]):
-        return _dressed(list(case["pels"]), pos, d["slab"] or "", d["sextra"])
-    return mf.atoms_from(pos, case["pels"])
+        return _dressed(list(case["pels"]), pos, d["slab"] or "", d["sextra"], cell=pattern_cell(case, 0))
+    return mf.atoms_from(pos, case["pels"], pattern_cell(case, 0))
 
 
 def build_replace(case, motion=None):
@@ -184,9 +197,10 @@ def build_replace(case, motion=None):
     d = case.get("pdress")
     if d and (d["rlab"] is not None or d["rextra"]):
         return _dressed(list(case["rels"]), pos, d["rlab"] or "", d["rextra"], charges=list(case["rcharges"]),
-                        groups=list(case["rgroups"]))
+                        groups=list(case["rgroups"]), cell=pattern_cell(case, 1))
     with silenced():
-        return Atoms(elements=list(case["rels"]), positions=pos, charges=list(case["rcharges"]), groups=list(case["rgroups"]))
+        return Atoms(elements=list(case["rels"]), positions=pos, charges=list(case["rcharges"]), groups=list(case["rgroups"]),
+                     cell=pattern_cell(case, 1))
 
 
 def analyse(case):
